@@ -180,7 +180,7 @@ func (c c16) skipCase(cs c16Case) core.Result {
 		var mism []string
 		switch cs.Cmp {
 		case "int":
-			mism = runSkip[int](cs, hv, skiplist.OrderedComparator[int]{}, func(u int) int { return u*3 - 3 } // includes 0, the zero value of the key type, &r)
+			mism = runSkip[int](cs, hv, skiplist.OrderedComparator[int]{}, func(u int) int { return u*3 - 3 }, &r) // keys include 0, the zero value of the key type
 		case "intdiff":
 			// a consistent comparator that returns the difference (any magnitude), as the Compare contract allows
 			mism = runSkip[int](cs, hv, diffComparator{}, func(u int) int { return u*30 - 40 }, &r)
